@@ -424,12 +424,76 @@ fn curve_circle(rng: &mut Rng) {
     emit_oracle_only("circle.curve", &Tok::new(), &Tok::new(), &v);
 }
 
+/// Segments between lattice points of an integer circle of radius 5k: end points exactly ON the circle
+/// (3-4-5 points), inside it, at its centre or outside it.  The number of hits is decided exactly in
+/// integers (roots of `|u + t d|^2 = r^2` in [0, 1]); with coordinates this small a root that is not
+/// exactly an end point is at least 1e-5 away from it, far outside the implementation's 1e-10 window.
+fn lattice_chords(rng: &mut Rng) {
+    let k = *rng.pick(&[1i64, 2, 4]);
+    let (cx, cy) = (rng.int(-4, 4), rng.int(-4, 4));
+    let r = 5 * k;
+    let on: [(i64, i64); 12] = [(5, 0), (-5, 0), (0, 5), (0, -5), (3, 4), (-3, 4), (3, -4), (-3, -4), (4, 3), (-4, 3), (4, -3), (-4, -3)];
+    let mut pick = |rng: &mut Rng| -> (i64, i64) {
+        match rng.below(6) {
+            0 | 1 | 2 => { let p = *rng.pick(&on); (p.0 * k, p.1 * k) }
+            3 => (0, 0),
+            4 => (rng.int(-3, 3) * k, rng.int(-3, 3) * k),
+            _ => { let p = *rng.pick(&on); (p.0 * k + rng.int(-2, 6) * p.0.signum(), p.1 * k + rng.int(0, 6) * p.1.signum()) }
+        }
+    };
+    let (ua, ub) = (pick(rng), pick(rng));
+    if ua == ub { return; }
+    let (dx, dy) = ((ub.0 - ua.0) as i128, (ub.1 - ua.1) as i128);
+    let (ux, uy) = (ua.0 as i128, ua.1 as i128);
+    let a = dx * dx + dy * dy;
+    let b = 2 * (ux * dx + uy * dy);
+    let c0 = ux * ux + uy * uy - (r as i128) * (r as i128);
+    let disc = b * b - 4 * a * c0;
+    let expected = if disc < 0 {
+        0
+    } else if disc == 0 {
+        (-b >= 0 && -b <= 2 * a) as usize
+    } else {
+        // t- = (-b - s) / 2a, t+ = (-b + s) / 2a with s = sqrt(disc)
+        let lo_ge0 = -b >= 0 && b * b >= disc;
+        let lo_le1 = -b - 2 * a <= 0 || (b + 2 * a) * (b + 2 * a) <= disc;
+        let hi_ge0 = b <= 0 || disc >= b * b;
+        let hi_le1 = 2 * a + b >= 0 && disc <= (2 * a + b) * (2 * a + b);
+        (lo_ge0 && lo_le1) as usize + (hi_ge0 && hi_le1) as usize
+    };
+    let c = Circle2::new(cx as f64, cy as f64, r as f64);
+    let (sa, sb) = (Point2::new((cx + ua.0) as f64, (cy + ua.1) as f64), Point2::new((cx + ub.0) as f64, (cy + ub.1) as f64));
+    let Ok(seg) = Segment2::try_new(sa, sb) else { return };
+    let ps: Vec<Point2> = c.intersection(&seg);
+    let mut v = Verdict::new();
+    v.require(ps.len() == expected, "segment_circle.reports_exactly_the_hits_on_the_segment", || format!("{} vs {expected} for {sa:?}-{sb:?} on centre ({cx},{cy}) r={r}", ps.len()));
+    for p in &ps {
+        v.require(c.distance_to(p).abs() <= 1e-7 * r as f64, "line_circle.points_on_circle", || format!("{}", c.distance_to(p)));
+        let t = (p - seg.a).dot(&(seg.b - seg.a)) / (seg.b - seg.a).norm_squared();
+        v.require(t >= -1e-9 && t <= 1.0 + 1e-9, "segment_circle.points_on_segment", || format!("{t}"));
+    }
+    let mut i = Tok::new();
+    i.f(sa.x).f(sa.y).f(sb.x).f(sb.y);
+    circ_tok(&mut i, &c);
+    let mut o = Tok::new();
+    o.n(ps.len());
+    for p in &ps {
+        o.f(p.x).f(p.y);
+    }
+    if disc == 0 {
+        emit_oracle_only("circle.segment", &i, &o, &v);
+    } else {
+        emit("circle.segment", &i, &o, &v);
+    }
+}
+
 pub fn run(rng: &mut Rng, n: usize) {
     for _ in 0..n {
         for _ in 0..4 {
             case("circle.case", "c11.library_call_panics", || circle_pairs(rng));
             case("circle.case", "c11.library_call_panics", || tangents(rng));
             case("circle.case", "c11.library_call_panics", || lines(rng));
+            case("circle.case", "c11.library_call_panics", || lattice_chords(rng));
         }
         case("circle.case", "c11.library_call_panics", || arcs(rng));
         case("circle.case", "c11.library_call_panics", || boxes_of_every_constructor(rng));
